@@ -3,7 +3,7 @@ import random
 
 from harness import common as C
 
-RULE_FILES = ["Rules/RealPrelude.v", "Rules/ScalarRules.v", "Rules/Complex.v", "Containers/VSpace.v",
+RULE_FILES = ["Rules/RealPrelude.v", "Rules/ScalarRules.v", "Rules/PolyRules.v", "Rules/Complex.v", "Containers/VSpace.v",
               "Containers/VSpaceProof.v", "Array/Broadcast.v", "Array/Run01.v", "Array/MatMul.v", "Array/Index.v", "Array/Select.v", "Array/RunSel.v", "Rules/Stats.v", "Rules/StatsProof.v", "Array/RunStats.v", "Array/Bilinear.v", "Array/BilinearClosed.v", "Array/RunBil.v", "Rules/ComplexRing.v", "Array/RunBilC.v", "Array/Realified.v", "Array/RunReal.v", "Array/LinAlg.v", "Array/RunLin.v", "Array/BroadcastTie.v", "Array/Multilinear.v", "Array/MultilinearPair.v", "Array/RunMul.v"]
 IMPORTS = ("From Coq Require Import List ZArith.\nImport ListNotations.\n"
            "From AG Require Import VSpace VSpaceProof Broadcast Run01 MatMul.\nLocal Open Scope Z_scope.\n")
